@@ -21,7 +21,7 @@ RULE = ("one valid response of each kind (state with CRC-8, state with additive 
         "(8 values per position quick, all 255 thorough): client with capabilities and state from a good device in S0; device "
         "switched to S1 (every field, property, capability different) and answering every request of the next refresh() / "
         "get_capabilities() with the corrupted frame; if not valid(f): to_dict(), breeze/ieco and all capability attributes "
-        "unchanged, online False, supported False, no exception. Additionally the header bytes (length byte, appliance type, protocol, frame type) are swept over all substitutes for 24 (quick) / 400 (thorough) different valid frames per kind. Selective corruption (metamorphic, full stack): with the device moved from S0 to S1, over 1..7 refreshes the answers of a subset of kinds {state, energy, humidity, properties} arrive corrupted (1..3 adjacent corrupted copies per batch) and the others intact; the client must end in the same state as one whose device answered those kinds intact with the old values. Non-trivial: not valid(f) and the corruption is not in the last "
+        "unchanged, online False, supported False, no exception. Additionally body corruptions with fix-up for valid frames of ten different frame types (incl. pushed reports 0x04 and notifications 0x05), and the header bytes (length byte, appliance type, protocol, frame type) are swept over all substitutes for 24 (quick) / 400 (thorough) different valid frames per kind. Selective corruption (metamorphic, full stack): with the device moved from S0 to S1, over 1..7 refreshes the answers of a subset of kinds {state, energy, humidity, properties} arrive corrupted (1..3 adjacent corrupted copies per batch) and the others intact; the client must end in the same state as one whose device answered those kinds intact with the old values. Non-trivial: not valid(f) and the corruption is not in the last "
         "two bytes; every selective case. Distinct by (kind, position, value, fix-up, level).")
 ASSUMPTIONS = ["corruptions that satisfy the other body check, or turn the id into 0xB0/0xB1, are valid frames by the property's own "
                "definition; counted as accepted_by_design and not asserted"]
@@ -299,6 +299,23 @@ def run(ctx) -> None:
                             c2 = dict(case, level="stack")
                             ctx.check(c2, lambda c: _run_one(ctx, c))
     ctx.sweep("header bytes (length, appliance, protocol, frame type) x all substitutes over many frames of each kind", h, True)
+    # valid frames of every frame type (queries 0x03, control 0x02, pushed reports 0x04, notifications 0x05, others): body
+    # corruption with the outer checksum recomputed, decoder level and full stack
+    ft = 0
+    bodies = {"state": RK.valid_frame("state", 1)[10:-2], "energy": RK.valid_frame("energy", 1)[10:-2], "humidity": RK.valid_frame("humidity", 1)[10:-2],
+              "caps": RK.valid_frame("caps", 1)[10:-2]}
+    for ftype in (0x00, 0x01, 0x02, 0x03, 0x04, 0x05, 0x06, 0x0A, 0x63, 0xFF):
+        for kind, body in bodies.items():
+            fr = rc.frame_build(ftype, body, proto=3)
+            for pos in range(11, len(fr) - 2, 1 if not ctx.quick else 2):
+                for val in ((fr[pos] ^ 0xFF, fr[pos] ^ 0x01) if ctx.quick else (fr[pos] ^ 0xFF, fr[pos] ^ 0x01, fr[pos] ^ 0x80, (fr[pos] + 7) & 0xFF)):
+                    ft += 1
+                    if ctx.mine(ft):
+                        case = {"kind": kind, "pos": pos, "val": val, "fix": True, "base": fr.hex()}
+                        ctx.check(case, lambda c: _run_one(ctx, c))
+                        if (pos + ftype) % 5 == 0:
+                            ctx.check(dict(case, level="stack"), lambda c: _run_one(ctx, c))
+    ctx.sweep("body corruption with fix-up x frame types x response kinds", ft, True)
     ctx.sweep("full stack: positions x substitutes", s, not ctx.quick)
     # selective corruption over several refreshes: every non-empty subset of answer kinds x copies x fix-up x rounds
     import itertools
